@@ -4,14 +4,14 @@ from common import VERIF
 
 READY = True
 
-STAGE = "3-partial: vm_refines_eval_partial proved for text / emit / set x = e / if-elif-else / with x = e / for x in e (no filter, else, loop controls) over expressions with constant folding, short-circuit and/or, if-expressions, filters, tests, attribute/item access, list/map literals (no chained comparison, no call); stage 2 (model code generator == real instruction stream, model VM == exec == engine) checked on every generated program without macros; loop filter / for-else / unpacking / captures / break / continue / chained comparisons / macros not yet proved"
+STAGE = "3-partial: vm_refines_eval_partial proved for text / emit / set (incl. unpacking) / set-block / filter-block / if-elif-else / with / for-else with unpacking targets and loop filter (no break/continue) over expressions with constant folding, short-circuit and/or, if-expressions, filters, tests, attribute/item access, list/map literals, chained comparisons (every expression form except calls); stage 2 (model code generator incl. macros, call blocks, calls and the find_macro_closure analysis == real instruction stream on every generated program; model VM == exec == engine on macro-free programs; extended model VM with closures, prepare_args and the live loop object with its adjacent-item look-ahead == exec == engine on all programs); break / continue / macros not yet proved"
 
 META = {
     "technique": "Lean 4: reference interpreter of the core fragment with kernel-checked scoping / loop-variable / for-else laws; model of the code generator (back-patched absolute jumps) and of the VM with a kernel-checked refinement theorem for a fragment; ties: typed random programs -> real parser (AST dumped and compared) -> (a) Template::render vs. the interpreter (oracle, delta-debugging shrinker), (b) model code generator vs. the real instruction stream instruction by instruction, (c) model VM vs. engine and vs. the interpreter; tables regenerated from source",
     "category": "proof",
-    "text": "MJ/Model/Eval.lean is the documented semantics of the core fragment (expressions, if/elif/else, for/else/filter/unpacking/loop, set, set-block, with, filter-block, macros with defaults and keyword arguments, call blocks, break/continue) as a structurally recursive interpreter that shares nothing with the compiler and VM. Kernel-checked: assignments inside for/with/macro/call-block bodies leave every enclosing scope unchanged, assignments at template level and in if-branches persist, the loop object of iteration i is <i, len, xs[i-1]?, xs[i+1]?> for every list, the else branch runs iff the filtered sequence is empty; constant folding is sound; the back-patching code generator model equals a structured generator with resolved targets; vm_refines_eval_partial: the model VM on the generated code renders what the interpreter renders, for templates of text / emit / set / if / with / for (plain target, no filter, else or loop controls) over expressions with short-circuit and/or, if-expressions, filters, tests, attribute and item access, list and map literals. The engine is tied to the models by rendering generated programs with the real engine (real parser in the loop), by comparing the real instruction streams with the model generator's, and by running the model VM.",
+    "text": "MJ/Model/Eval.lean is the documented semantics of the core fragment (expressions, if/elif/else, for/else/filter/unpacking/loop, set, set-block, with, filter-block, macros with defaults and keyword arguments, call blocks, break/continue) as a structurally recursive interpreter that shares nothing with the compiler and VM. Kernel-checked: assignments inside for/with/macro/call-block bodies leave every enclosing scope unchanged, assignments at template level and in if-branches persist, the loop object of iteration i is <i, len, xs[i-1]?, xs[i+1]?> for every list, the else branch runs iff the filtered sequence is empty; constant folding is sound; the back-patching code generator model equals a structured generator with resolved targets; vm_refines_eval_partial: the model VM on the generated code renders what the interpreter renders, for templates of text / emit / set (with unpacking) / set-block / filter-block / if / with / for-else with loop filter (no loop controls) over expressions with short-circuit and/or, if-expressions, filters, tests, attribute and item access, list and map literals. The engine is tied to the models by rendering generated programs with the real engine (real parser in the loop), by comparing the real instruction streams with the model generator's, and by running the model VM.",
     "design_ref": "DESIGN.md §3 C03",
-    "level_note": "Stage reached: " + STAGE + ". Trusted: Lean kernel; the reading of syntax.rs in MJ/Model/Eval.lean; hand transcription of codegen.rs / vm/mod.rs in MJ/Model/{Compile,Vm}.lean (validated on every generated macro-free program: instruction streams identical, VM results identical); harness unparse + serde AST dump (checked by AST equality on every case). Not proved: refinement for loop filters, for-else, unpacking targets, set-/filter-blocks, break/continue, chained comparisons (checked by running the model VM against exec and the engine on every generated program), macros and call blocks (render oracle only; not modelled in Compile/Vm).",
+    "level_note": "Stage reached: " + STAGE + ". Trusted: Lean kernel; the reading of syntax.rs in MJ/Model/Eval.lean; hand transcription of codegen.rs / vm/mod.rs in MJ/Model/{Compile,Vm}.lean (validated on every generated macro-free program: instruction streams identical, VM results identical); harness unparse + serde AST dump (checked by AST equality on every case). Not proved: refinement for break/continue (checked by running the model VM against exec and the engine on every generated program), macros, call blocks and calls are modelled in Compile (instruction streams compared) and in the extended VM model VmM (results compared) but are not part of the refinement theorem.",
 }
 
 STMT_HEADS = {"text", "emit", "ifs", "for", "set", "setb", "with", "fblk", "macro", "callb", "break", "continue"}
@@ -239,7 +239,7 @@ def run(r):
     cases = []
     if corpus:
         res = runner.run_full(corpus)
-        cases += [(cid, c, p, l[3], m[1], unhex(l[4]), "kinds=corpus", l[6], m[2], m[3], m[4]) for (cid, c, p), (l, m) in zip(corpus, res)]
+        cases += [(cid, c, p, l[3], m[1], unhex(l[4]), "kinds=corpus", l[6], m[2], m[3], m[4], m[5]) for (cid, c, p), (l, m) in zip(corpus, res)]
 
     # ---- generated programs
     rc, out, err = r.harness(exe, ["gen", r.tier, str(n)])
@@ -253,17 +253,18 @@ def run(r):
         return
     for l, m in zip(lines, model):
         mf = m.split("\t")
-        if mf[0] != l[0] or len(mf) != 5 or len(l) != 7:
+        if mf[0] != l[0] or len(mf) != 6 or len(l) != 7:
             r.broken.append("model driver answered out of order / malformed line")
             return
-        cases.append((l[0], l[1], l[2], l[3], mf[1], unhex(l[4]), l[5], l[6], mf[2], mf[3], mf[4]))
+        cases.append((l[0], l[1], l[2], l[3], mf[1], unhex(l[4]), l[5], l[6], mf[2], mf[3], mf[4], mf[5]))
 
     conds = constconds = 0
     skipped = 0
     nfail = 0
     ncode = nvm = 0
     nfrag = 0
-    for cid, ctx, prog, impl, mres, src, stats, realcode, modelcode, vmres, frag in cases:
+    nvmm = 0
+    for cid, ctx, prog, impl, mres, src, stats, realcode, modelcode, vmres, frag, vmmres in cases:
         if frag == "frag3" and modelcode != "oof":
             # syntactically in the fragment and compiled by the model generator (constant folding
             # stayed inside the value model): the hypotheses of vm_refines_eval_partial hold
@@ -286,7 +287,15 @@ def run(r):
                     r.model_disagreement(f"vm\t{ctx}\t{prog}", show(impl) + f" [source: {src}]", show(vmres))
                 if cls(vmres) != cls(mres):
                     r.broken.append(f"model VM on model code disagrees with exec (counterexample to vm_refines_eval): {src} -> vm {show(vmres)}, exec {show(mres)}")
-        r.hist["codegen_fragment"]["in" if modelcode != "oof" else "outside (macros / calls)"] += 1
+            # the extended model VM (macros, calls, live loop object): all compiled programs
+            if vmmres != "-" and mres not in ("err:OUT-OF-FRAGMENT", "err:FUEL") and vmmres != "err:FUEL":
+                nvmm += 1
+                cls = lambda x: x if x.startswith("ok:") else "err"
+                if cls(vmmres) != cls(impl):
+                    r.model_disagreement(f"vmM\t{ctx}\t{prog}", show(impl) + f" [source: {src}]", show(vmmres))
+                if cls(vmmres) != cls(mres):
+                    r.broken.append(f"extended model VM on model code disagrees with exec: {src} -> vmM {show(vmmres)}, exec {show(mres)}")
+        r.hist["codegen_fragment"]["in" if modelcode != "oof" else "outside (method calls, filter kwargs, ...)"] += 1
         st = dict(kv.split("=", 1) for kv in stats.split(";") if "=" in kv)
         kinds = [k for k in st.get("kinds", "-").split("+") if k != "-"]
         r.count(ctx + prog, nontrivial=bool(kinds))
@@ -319,6 +328,7 @@ def run(r):
     r.extra["programs_in_proved_fragment"] = nfrag
     r.extra["codegen_streams_compared"] = ncode
     r.extra["vm_runs_compared"] = nvm
+    r.extra["vmM_runs_compared"] = nvmm
     r.extra["conditions_generated"] = conds
     r.extra["conditions_constant"] = constconds
     r.extra["skipped_out_of_fragment"] = skipped
